@@ -6,7 +6,7 @@ import time
 
 VERIF = os.path.dirname(os.path.dirname(os.path.abspath(__file__)))
 REPLAY = os.path.join(VERIF, 'replay')
-HAVE = {'C01', 'C08', 'C15'}
+HAVE = {'C01', 'C04', 'C05', 'C08', 'C15'}
 _cache = {}
 
 
@@ -28,7 +28,7 @@ def build_replay():
     return os.path.join(REPLAY, 'target', 'debug', 'vx-replay')
 
 
-def search(pid, seed):
+def search(pid, seed, tier='quick'):
     """run the property's witness search on the real code; returns {obligation: record}"""
     if pid in _cache:
         return _cache[pid]
@@ -36,7 +36,7 @@ def search(pid, seed):
     if pid in HAVE:
         binary = build_replay()
         if binary:
-            p = subprocess.run(['timeout', '900', binary, pid, str(seed)], stdout=subprocess.PIPE, stderr=subprocess.PIPE, text=True)
+            p = subprocess.run(['timeout', '900', binary, pid, str(seed), tier], stdout=subprocess.PIPE, stderr=subprocess.PIPE, text=True)
             for ln in p.stdout.split('\n'):
                 ln = ln.strip()
                 if ln.startswith('{'):
@@ -56,6 +56,17 @@ BOUNDED = {
                      'order requests are addressed to the named instrument',
                 bound={'quick': 'up to 3 exchanges, up to 4 instruments per collection', 'thorough': 'up to 3 exchanges, up to 5 instruments per collection'}),
 }
+
+
+def undecided_standin(pid, tier, seed):
+    """the deductive part is UNDECIDED (structure change, unsupported construct ...): the property's witness search on the real code
+    stands in as a BOUNDED check; only a concrete failing input found on the real code is reported"""
+    res = []
+    for ob, r in search(pid, seed, tier).items():
+        res.append(dict(obligation=ob + '@bounded', kind='bounded stand-in on the real code (proof undecided)', text='',
+                        verifier_output='the deductive check was undecided; the bounded search on the real code found a failing input',
+                        input=r['input'], observed='observed %s, expected %s' % (r['observed'], r['expected'])))
+    return res
 
 
 def post_checks(pid, tier, seed, evidence):
@@ -93,7 +104,12 @@ def make_replay(pid, v, tier, seed):
     os.makedirs(d, exist_ok=True)
     path = os.path.join(d, '%s-%s.json' % (pid, v['obligation'].replace('/', '_')))
     if not v.get('input'):
-        w = search(pid, seed).get(v['obligation'])
+        found = search(pid, seed, tier)
+        w = found.get(v['obligation'])
+        if not w and found:
+            # no search rule carries this label: attach a failing input of the same property found on the real code
+            k = sorted(found)[0]
+            w = dict(found[k], observed='[witness found under search rule %s] %s' % (k, found[k]['observed']))
         if w:
             v['input'], v['observed'] = w['input'], w['observed']
     rec = dict(property=pid, obligation=v['obligation'], kind=v.get('kind'), clause=v.get('text'),
